@@ -163,5 +163,70 @@ out = (samples, logps)
         okh = htype == "NotImplementedError" and len(rets_h) == 1 and bm.ev(rets_h[0].value, env, ctx) == want
         s.ob("C15.4", "AbstractTransformedDistribution.mode", okh, "on NotImplementedError the mode falls back to bijector.forward(base.mode())", loc, key="mode-fallback",
              detail=ast.unparse(h)[:200], necessary_for="the mode of a squashed law lies in the support [low, high]")
-    for r_, n_ in (("C15.1", 8), ("C15.2", 9), ("C15.3", 9), ("C15.4", 3)):
+    # ---------------------------------------------------------------- C15.5 parameter wiring of the constructors and accessors
+    check_params(s)
+    for r_, n_ in (("C15.1", 8), ("C15.2", 9), ("C15.3", 9), ("C15.4", 3), ("C15.5", 40)):
         s.floor(r_, n_)
+
+
+PARAM_CLASSES = ["Normal", "MultivariateNormalDiag", "Bernoulli", "Categorical", "MultiCategorical", "SquashedNormal", "SquashedMultivariateNormalDiag"]
+
+
+def check_params(s):
+    """C15.5: every keyword of the wrapped distreqx law is fed by the like-named constructor parameter (as an array, or None exactly
+    when that parameter is None), and the read-back properties return the like-named attribute of the wrapped (base) law."""
+    P = s.prog
+    self_ = ("param", "self")
+    for cls in PARAM_CLASSES:
+        b = s.builder(inline=set())
+        loc = s.loc(cls, "__init__")
+        n_law = 0
+        for p in live(s.paths(b, cls, "__init__")):
+            dist = p.self_attrs.get("distribution")
+            if dist is None:
+                continue
+            laws = [c for c in walk(dist) if isinstance(c, tuple) and c and c[0] == "call" and isinstance(c[1], tuple) and c[1][0] == "global"
+                    and c[1][1].startswith("distreqx.distributions.") and c[1][1] != "distreqx.distributions.Transformed"]
+            s.ob("C15.5", f"{cls}.__init__", len(laws) == 1 and not laws[0][2], "one wrapped base law, built with keyword arguments only", loc, key="one-base-law",
+                 detail="; ".join(show(c, maxlen=120) for c in laws))
+            if len(laws) != 1:
+                continue
+            n_law += 1
+            none_params = set()
+            for t, v in p.conds:
+                # `x is not None` False / `x is None` True  => parameter x is None on this path
+                if isinstance(t, tuple) and t[0] == "cmp" and t[3] == NONE and isinstance(t[2], tuple) and t[2][0] == "param":
+                    if (t[1] == "IsNot" and not v) or (t[1] == "Is" and v):
+                        none_params.add(t[2][1])
+            for k, v in laws[0][3]:
+                src = v
+                while isinstance(src, tuple) and src and src[0] == "call" and src[1] in (("global", "jax.numpy.asarray"), ("global", "jax.numpy.array")) and src[2]:
+                    src = src[2][0]
+                if src == NONE:
+                    ok = k in none_params
+                    why = f"{k}=None although the parameter `{k}` is not known to be None on this path"
+                elif isinstance(src, tuple) and src[0] == "bound":
+                    # MultiCategorical: the per-component parameter is an element of the split of the like-named flat parameter
+                    comps = [c for c in walk(dist) if isinstance(c, tuple) and c and c[0] == "comp"]
+                    it = comps[0][3][0][0] if comps else None
+                    ok = it is not None and ("param", k) in set(walk(it)) and not ({x for x in walk(it) if isinstance(x, tuple) and x and x[0] == "param"} - {("param", k), ("param", "action_dims")})
+                    why = f"component {k} iterates {show(it, maxlen=120)}"
+                else:
+                    ok = src == ("param", k)
+                    why = f"{k}={show(v, maxlen=120)}"
+                s.ob("C15.5", f"{cls}.__init__.{k}", ok, f"the wrapped law's `{k}` is the constructor's `{k}` (as an array)", loc, key=f"param-{k}", detail=why,
+                     necessary_for="log_prob, samples, entropy and mode are those of the law with the parameters the caller supplied (loc is not scale, logits are not probs)")
+        if n_law == 0:
+            raise AnalysisError(f"{cls}.__init__: no path builds a wrapped law")
+        # read-back properties
+        ci = P.cls(cls)
+        for name in ("loc", "scale", "scale_diag", "logits", "probs"):
+            r = P.resolve_method(ci, name)
+            if r is None or not r[0].is_property(name) or cls == "MultiCategorical":
+                continue
+            pp = [q for q in live(s.paths(b, cls, name))]
+            base = ("attr", self_, "distribution")
+            wants = [("attr", base, name), ("attr", ("attr", base, "distribution"), name)]
+            s.ob("C15.5", f"{cls}.{name}", len(pp) == 1 and pp[0].ret in (wants[1:] if cls.startswith("Squashed") else wants[:1]),
+                 f"the `{name}` property reads the wrapped {'base ' if cls.startswith('Squashed') else ''}law's `{name}`", s.loc(cls, name), key=f"accessor-{name}",
+                 detail="; ".join(show(q.ret, maxlen=100) for q in pp))
